@@ -262,21 +262,23 @@ func comps(as []T) []templ.Component {
 // limitWriter makes runaway recursion (a block that ends up rendering
 // itself) fail-stop with a write error instead of a fatal stack overflow.
 type limitWriter struct {
-	buf bytes.Buffer
+	buf   bytes.Buffer
+	limit int
 }
 
 var errLimit = fmt.Errorf("output limit exceeded (runaway recursion)")
 
 func (l *limitWriter) Write(p []byte) (int, error) {
-	if l.buf.Len()+len(p) > 64<<10 {
+	if l.buf.Len()+len(p) > l.limit {
 		return 0, errLimit
 	}
 	return l.buf.Write(p)
 }
 
 type job struct {
-	ID   int ` + "`json:\"id\"`" + `
-	Tree []T ` + "`json:\"tree\"`" + `
+	ID    int ` + "`json:\"id\"`" + `
+	Limit int ` + "`json:\"limit\"`" + ` // output limit in bytes (several times the size of the correct output)
+	Tree  []T ` + "`json:\"tree\"`" + `
 }
 
 type result struct {
@@ -301,7 +303,7 @@ func main() {
 			fmt.Fprintln(os.Stderr, "bad job:", err)
 			os.Exit(3)
 		}
-		var lw limitWriter
+		lw := limitWriter{limit: j.Limit}
 		buf := &lw.buf
 		r := result{ID: j.ID}
 		func() {
